@@ -35,6 +35,24 @@ inductive Item where
   | lazy (id : Nat) (s : Str)     -- a callable returning `s`; calling it is observable
   deriving DecidableEq, Repr
 
+/-- What is written in the source: the items above, or a value whose inserter puts the statement's
+string stream into the failed state and writes nothing (`os.setstate(std::ios_base::failbit)`). -/
+inductive RawItem where
+  | text (s : Str)
+  | lazy (id : Nat) (s : Str)
+  | fail
+  deriving DecidableEq, Repr
+
+/-- The iostream rule for a failed stream: insertions are ignored, their operands are still
+evaluated.  `silence failed raw` is what the items amount to for the string stream when it is
+already failed (`failed = true`) or not: behind the first failing value every item carries no text,
+a callable stays a callable. -/
+def silence : Bool → List RawItem → List Item
+  | _, [] => []
+  | _, .fail :: rest => .text [] :: silence true rest
+  | failed, .text s :: rest => .text (if failed then [] else s) :: silence failed rest
+  | failed, .lazy id s :: rest => .lazy id (if failed then [] else s) :: silence failed rest
+
 inductive Event where
   | lazyCall (id : Nat)
   | fmt (sev : Sev) (tag : Option Str) (msg : Str)      -- Formatter::format(record)
